@@ -32,7 +32,9 @@ Subs(q) == IF IsOpen(st, q.d) THEN st.open[q.d].subs ELSE {}
 Known(sids) == [s \in (DOMAIN pend) \cup sids |-> IF s \in DOMAIN pend THEN pend[s] ELSE <<>>]
 NextPend(q, R) ==
   LET p0 == Known(IF q.op \in {"Open", "Subscribe", "Unsubscribe"} THEN {q.sid} ELSE {}) IN
-  IF q.op \in Writes /\ R.res = "ok"
+  \* C12 speaks of entries that actually entered the replica: it follows the acknowledged outcome (whether the entry
+  \* should have been admitted is C02's question); the other properties follow the specified outcome
+  IF q.op \in Writes /\ (IF Prop = "C12" THEN q.res = "ok" ELSE R.res = "ok")
   THEN [s \in DOMAIN p0 |-> IF s \in Subs(q) THEN Append(p0[s], EvOf(q)) ELSE p0[s]]
   ELSE p0
 DrainOk(r) ==
